@@ -289,6 +289,41 @@ const TYPE_PRELUDE: &str = "struct Bx[T] { v: T }\ntrait Show { fn show(Self) ->
 
 pub struct IllTyped;
 
+/// wrappers of the composed operand types (applied innermost first)
+const NEST_WRAPPERS: [&str; 5] = ["tuple", "generic-struct", "generic-enum", "declared-struct", "declared-enum"];
+/// leaves of the composed operand types: (tag, type, value, comparable?)
+/// (equality of arrays and of reference cells is not pinned by the statement either way: not among the leaves)
+const NEST_LEAVES: [(&str, &str, &str, bool); 5] = [
+    ("int32", "int32", "1", true),
+    ("string", "string", "\"a\"", true),
+    ("vec", "Vec[int32]", "vec_new()", false),
+    ("fn", "(int32) -> int32", "|q: int32| q", false),
+    ("dyn", "dyn Opd", "1", false),
+];
+
+/// generic structs: (name, declarations, legal?) - legal iff no struct is reachable from itself through fields held by value,
+/// an argument counting where the generic struct holds its parameter by value
+const STRUCT_GENERIC: &[(&str, &str, bool)] = &[
+    ("through-a-held-parameter", "struct W[T] { v: T }\nstruct S { w: W[S] }", false),
+    ("through-a-parameter-behind-vec", "struct P[T] { v: Vec[T] }\nstruct S { p: P[S], k: int32 }", true),
+    ("through-a-parameter-behind-ref", "struct W[T, U] { v: T, r: Ref[U] }\nstruct S { q: W[int32, S] }", true),
+    ("through-the-held-one-of-two-parameters", "struct W[T, U] { v: T, r: Ref[U] }\nstruct S { q: W[S, int32] }", false),
+    ("through-two-generic-levels", "struct W[T] { v: T }\nstruct Q[T] { w: W[W[T]] }\nstruct S { q: Q[(int32, S)] }", false),
+    ("through-two-generic-levels-behind-vec", "struct W[T] { v: Vec[T] }\nstruct Q[T] { w: W[W[T]] }\nstruct S { q: Q[(int32, S)] }", true),
+    ("growing-instances-in-a-cycle", "struct A[T] { b: B[(T, T)] }\nstruct B[T] { a: A[(T, T)] }\nstruct C { a: A[int32] }", false),
+    ("growing-instances-in-a-cycle-unused", "struct A[T] { b: B[(T, T)] }\nstruct B[T] { a: A[(T, T)] }", false),
+    ("growing-instance-that-ends", "struct A[T] { b: B[(T, T)] }\nstruct B[T] { v: T }\nstruct C { a: A[int32] }", true),
+    ("growing-self-instance", "struct A[T] { n: A[(T, T)], v: T }", false),
+    ("growing-self-instance-array", "struct A[T] { n: [A[[T; 2]]; 1] }", false),
+    ("cycle-broken-by-a-ref-inside-a-generic", "struct A[T] { x: B[T] }\nstruct B[T] { y: Ref[A[T]] }\nstruct C { a: A[C] }", true),
+    ("cycle-through-a-generic-that-forwards-its-parameter", "struct A[T] { x: B[T] }\nstruct B[T] { y: T }\nstruct C { a: A[C] }", false),
+    ("parameter-held-only-by-the-other-struct", "struct A[T] { x: B[T], k: int32 }\nstruct B[T] { y: Vec[A[T]] }\nstruct C { a: A[C] }", true),
+    ("parameter-held-in-a-cycle-of-generics", "struct A[T] { x: B[T] }\nstruct B[T] { y: Vec[A[T]], z: T }\nstruct C { a: A[C] }", false),
+    ("enum-breaks-the-cycle", "enum E { N, M(S) }\nstruct S { e: E }", true),
+    ("generic-enum-breaks-the-cycle", "enum O[T] { N, M(T) }\nstruct W[T] { v: O[T] }\nstruct S { w: W[S] }", true),
+    ("function-type-breaks-the-cycle", "struct S { f: (S) -> S }", true),
+];
+
 impl Family for IllTyped {
     fn name(&self) -> &'static str {
         "illtyped"
@@ -344,6 +379,17 @@ impl Family for IllTyped {
                 }
             }
         }
+        // containment beyond three structs: rings and open chains of n structs (the link a plain field, or every
+        // other link through a tuple / a generic instance), and generic structs that hold / do not hold their parameter
+        let ring_sizes: Vec<u64> = if tier == Tier::Quick { (1..=12).collect() } else { (1..=24).chain(60..=72).chain([100, 200]).collect() };
+        for n in ring_sizes {
+            for shape in ["ring", "chain", "ring-mixed", "chain-mixed"] {
+                v.push(json!({"kind": "struct-ring", "n": n, "shape": shape}));
+            }
+        }
+        for (name, _, _) in STRUCT_GENERIC {
+            v.push(json!({"kind": "struct-generic", "name": name}));
+        }
         for n in UNKNOWN_FIELD_NAMES {
             for (pl, _) in UNKNOWN_FIELD_PLACES {
                 v.push(json!({"kind": "unknown-field", "name": n, "place": pl}));
@@ -390,6 +436,27 @@ impl Family for IllTyped {
             }
             v.push(json!({"kind": "operator", "op": "neg", "ty": t, "route": "generic"}));
             v.push(json!({"kind": "operator", "op": "not", "ty": t, "route": "generic"}));
+        }
+        // == and != on composed operand types: every sequence of up to three wrappers (tuple, generic struct, generic
+        // enum, a struct / an enum declared for the purpose) around a leaf; comparable iff the leaf is
+        for depth in 1..=3usize {
+            for code in 0..NEST_WRAPPERS.len().pow(depth as u32) {
+                let seq: Vec<usize> = (0..depth).map(|i| (code / NEST_WRAPPERS.len().pow(i as u32)) % NEST_WRAPPERS.len()).collect();
+                let repeats = (0..depth).any(|i| (0..i).any(|j| seq[i] == seq[j]));
+                if tier == Tier::Quick && depth == 3 && !repeats {
+                    continue;
+                }
+                for (leaf, _, _, _) in NEST_LEAVES {
+                    for route in ["direct", "generic"] {
+                        for op in ["==", "!="] {
+                            if tier == Tier::Quick && depth == 3 && op == "!=" {
+                                continue;
+                            }
+                            v.push(json!({"kind": "operator-nested", "op": op, "wrappers": seq.iter().map(|i| NEST_WRAPPERS[*i]).collect::<Vec<_>>(), "leaf": leaf, "route": route}));
+                        }
+                    }
+                }
+            }
         }
         Box::new(v.into_iter())
     }
@@ -471,6 +538,57 @@ impl Family for IllTyped {
                 }
                 let acyclic = left.is_empty();
                 (text, acyclic, format!("struct-graph;edge-kind={};acyclic={};edges={}", kind, acyclic, mask.count_ones()))
+            }
+            "operator-nested" => {
+                let (op, leaf, route) = (case["op"].as_str().unwrap(), case["leaf"].as_str().unwrap(), case["route"].as_str().unwrap());
+                let wrappers: Vec<&str> = case["wrappers"].as_array().unwrap().iter().map(|w| w.as_str().unwrap()).collect();
+                let (_, lty, lv, ok) = NEST_LEAVES.iter().find(|(k, _, _, _)| *k == leaf).unwrap();
+                let (mut ty, mut val) = (lty.to_string(), lv.to_string());
+                let mut decls = String::from("struct Gs[T] { v: T }\nenum Ge[T] { Gn, Gv(T) }\n");
+                // innermost first
+                for (k, w) in wrappers.iter().enumerate() {
+                    match *w {
+                        "tuple" => { val = format!("(1, {})", val); ty = format!("(int32, {})", ty); }
+                        "generic-struct" => { val = format!("Gs {{ v: {} }}", val); ty = format!("Gs[{}]", ty); }
+                        "generic-enum" => { val = format!("Ge::Gv({})", val); ty = format!("Ge[{}]", ty); }
+                        "declared-struct" => { decls.push_str(&format!("struct Ns{} {{ f: {} }}\n", k, ty)); val = format!("Ns{} {{ f: {} }}", k, val); ty = format!("Ns{}", k); }
+                        _ => { decls.push_str(&format!("enum Ne{} {{ Na{}({}), Nb{} }}\n", k, k, ty, k)); val = format!("Ne{}::Na{}({})", k, k, val); ty = format!("Ne{}", k); }
+                    }
+                }
+                let text = if route == "generic" {
+                    format!("{}{}fn g[T](a: T, b: T) -> bool {{ a {} b }}\nfn main() {{ let a: {} = {}; let b: {} = {}; let r = g(a, b); string_println(\"x\") }}\n", PRELUDE, decls, op, ty, val, ty, val)
+                } else {
+                    format!("{}{}fn main() {{ let a: {} = {}; let b: {} = {}; let r = a {} b; string_println(\"x\") }}\n", PRELUDE, decls, ty, val, ty, val, op)
+                };
+                (text, *ok, format!("operator-nested;op={};leaf={};wrappers={};route={}", op, leaf, wrappers.join(">"), route))
+            }
+            "struct-ring" => {
+                let (n, shape) = (case["n"].as_u64().unwrap() as usize, case["shape"].as_str().unwrap());
+                let ring = shape.starts_with("ring");
+                let mixed = shape.ends_with("mixed");
+                let mut text = String::from("struct Bx[T] { v: T }\n");
+                // declared from the last to the first, so a use comes before its definition at every link
+                for k in (0..n).rev() {
+                    let next = (k + 1) % n;
+                    let last_of_chain = !ring && k == n - 1;
+                    let (fty, fval) = match (mixed, k % 3) {
+                        (true, 1) => (format!("(int32, S{})", next), format!("(0, mk{}())", next)),
+                        (true, 2) => (format!("Bx[S{}]", next), format!("Bx {{ v: mk{}() }}", next)),
+                        _ => (format!("S{}", next), format!("mk{}()", next)),
+                    };
+                    if last_of_chain {
+                        text.push_str(&format!("struct S{} {{ a: int32 }}\nfn mk{}() -> S{} {{ S{} {{ a: {} }} }}\n", k, k, k, k, k));
+                    } else {
+                        text.push_str(&format!("struct S{k} {{ a: int32, next: {fty} }}\nfn mk{k}() -> S{k} {{ S{k} {{ a: {k}, next: {fval} }} }}\n", k = k, fty = fty, fval = fval));
+                    }
+                }
+                text.push_str("fn main() -> unit {\n    string_println(int32_to_string(mk0().a + 6))\n}\n");
+                (text, !ring, format!("struct-ring;shape={};n={}", shape, n))
+            }
+            "struct-generic" => {
+                let name = case["name"].as_str().unwrap();
+                let (_, decls, ok) = STRUCT_GENERIC.iter().find(|(k, _, _)| *k == name).unwrap();
+                (format!("{}\nfn main() -> unit {{\n    string_println(int32_to_string(6))\n}}\n", decls), *ok, format!("struct-generic;name={}", name))
             }
             "unknown-field" => {
                 let (n, pl) = (case["name"].as_str().unwrap(), case["place"].as_str().unwrap());
@@ -578,13 +696,14 @@ impl Family for IllTyped {
         if !should_accept {
             rep.nontrivial_key = Some(text.clone());
         }
+        let is_graph = matches!(case["kind"].as_str(), Some("struct-graph" | "struct-ring" | "struct-generic"));
         let replay = json!({"kind": "text", "text": text, "oracle": if should_accept { "must-accept" } else { "must-reject" }});
         match compile_at(&path, &text) {
             CompileOutcome::Ok(comp) => {
                 rep.outcome = Some("accepted".into());
                 if should_accept {
                     rep.tag("well-typed:accepted");
-                    if case["kind"] == "struct-graph" {
+                    if is_graph {
                         // the accepted graphs: stage representations consistent, valid Go, and the sum printed
                         for (stage, msg) in crate::irck::check_all(&comp) {
                             rep.findings.push(Finding { property: "C03", class: format!("irck.{}", stage), site: format!("{};msg={}", site, normalise_msg(&msg)), detail: msg, replay: replay.clone() });
@@ -599,14 +718,14 @@ impl Family for IllTyped {
                     }
                 } else {
                     rep.tag("ill-typed:accepted");
-                    let class = if case["kind"] == "operator" { "operator-domain.accepted" } else { "ill-typed.accepted" };
+                    let class = if case["kind"] == "operator" || case["kind"] == "operator-nested" { "operator-domain.accepted" } else { "ill-typed.accepted" };
                     if case["kind"] == "missing-bound" {
                         rep.findings.push(Finding { property: "C07", class: class.into(), site: site.clone(), detail: "a trait call on a type parameter that does not have the bound was accepted".into(), replay: replay.clone() });
                     }
                     if case["kind"] == "literal-pattern-range" {
                         rep.findings.push(Finding { property: "C10", class: class.into(), site: site.clone(), detail: "a literal pattern that does not fit the scrutinee's type was accepted".into(), replay: replay.clone() });
                     }
-                    if case["kind"] == "struct-graph" {
+                    if is_graph {
                         // what Go would say about the emitted text (a type of infinite size) is C02's business
                         rep.findings.push(Finding { property: "C02", class: class.into(), site: site.clone(), detail: "structs that hold each other by value were accepted (Go: invalid recursive type)".into(), replay: replay.clone() });
                     }
@@ -618,6 +737,10 @@ impl Family for IllTyped {
                 rep.outcome = Some(format!("rejected:{}", stage));
                 if should_accept {
                     rep.tag(format!("well-typed:rejected:{}", stage));
+                    if is_graph && case["kind"] != "struct-graph" {
+                        // an open chain / a generic struct that does not hold its parameter is a legal program
+                        rep.findings.push(Finding { property: "C02", class: format!("well-typed.rejected.{}", stage), site: format!("{};msg={}", site, normalise_msg(&msg)), detail: msg.clone(), replay: replay.clone() });
+                    }
                     if case["kind"] == "array-literal-length" {
                         // the control of a place x element kind: without it the two ill-typed lengths say nothing
                         rep.tag(format!("machinery:control-rejected:{}", site));
